@@ -714,6 +714,14 @@ def _resolve_callee(model, func, call):
             if target is not None and target.cls is None and target.parent is None:
                 return target, 0
         return None, 0
+    if (isinstance(f, ast.Attribute) and isinstance(f.value, ast.Attribute) and isinstance(f.value.value, ast.Name)):
+        # module.Class.method(...)
+        imp = mod.imports.get(f.value.value.id)
+        if imp and imp.startswith('pkg:') and imp[4:] in model.modules:
+            m = model.modules[imp[4:]]
+            if f.value.attr in m.classes:
+                return method(m.classes[f.value.attr], f.attr, False)
+        return None, 0
     if isinstance(f, ast.Attribute) and isinstance(f.value, ast.Name):
         base = f.value.id
         if func.cls is not None and func.params and base == func.params[0] and base in ('self', 'cls'):
